@@ -109,7 +109,10 @@ def cases(tier, seed):
     for M, N, R, tM, tN in [([4], [4], [1, 1], [2, 2], [2, 2]), ([2, 2], [2, 2], [1, 2, 1], [4], [4]), ([4, 2], [2, 2], [1, 2, 1], [2, 2, 2], [2, 2, 1]),
                             ([2, 2], [3, 2], [1, 2, 1], [4], [6]), ([2, 2], [2, 2], [1, 2, 1], [2, 1, 2], [2, 1, 2]), ([4], [2], [1, 1], [2, 2], [1, 2]),
                             ([2, 2], [2, 2], [1, 2, 1], [2, 2, 1], [2, 2, 1]), ([2, 2], [2, 2], [1, 2, 1], [1, 2, 2], [1, 2, 2]), ([2, 2], [2, 2], [1, 2, 1], [4, 1], [4, 1]),
-                            ([2], [2], [1, 1], [2, 1, 1], [2, 1, 1])]:
+                            ([2], [2], [1, 1], [2, 1, 1], [2, 1, 1]),
+                            # rectangular requested modes: column-only / row-only splits, wide and tall modes kept as they are
+                            ([4], [4], [1, 1], [4, 1], [2, 2]), ([2], [4], [1, 1], [2], [4]), ([2, 2], [2, 4], [1, 2, 1], [2, 2], [2, 4]), ([4], [2], [1, 1], [2, 2], [2, 1]),
+                            ([2], [4], [1, 1], [1, 2], [2, 2]), ([4, 2], [2, 2], [1, 2, 1], [4, 2], [2, 2]), ([2, 2], [4, 2], [1, 2, 1], [2, 2], [4, 2]), ([1, 2], [4, 2], [1, 2, 1], [1, 2], [4, 2])]:
         s = {'N': N, 'M': M, 'R': R, 'patterns': pats_for(N, R, rng, M=M, target=(tM, tN)), 'target_M': tM, 'target_N': tN}
         cs.append({'scen': 'tt_reshape', 's': s})
         cs.append({'scen': 'tt_reshape', 's': dict(s, eps='default')})
